@@ -425,7 +425,7 @@ func TestStress(t *testing.T) {
 }
 
 func init() {
-	register(&PropSpec{ID: "C14", Engine: "multi", Fn: caseC14, Quick: 16000, Thorough: 1000000, Level: "exploration", Race: true,
+	register(&PropSpec{ID: "C14", Engine: "multi", Fn: caseC14, Quick: 40000, Thorough: 2000000, Level: "exploration", Race: true,
 		Rule:  "a case is one of: (b/c) 2..6 jobs (assemble shared text; build simulator, add shared WarriorData, spawn, step, run; parse load file) as tasks of one seeded scheduler, interleaved at every channel operation and API call, each result compared with the job's sequential result, the same cases also executed in a -race build with scheduler hand-offs hidden from the detector; (d) two simulators sharing WarriorData under a history that mutates the caller's data at arbitrary points, each compared with the reference fed the data as added; (a) one assembly under 2..4 further schedules, map orders and deliveries; non-trivial = every completed case; distinct = distinct decoded case",
 		Real:  []string{"assembler pipeline (goroutines)", "load-file reader", "simulator", "race detector (race build)"},
 		Stubs: []string{"goroutine scheduling choice (seeded controller over real goroutines)", "map iteration order", "io.Reader", "time (tick clock)"},
